@@ -15,7 +15,7 @@ EXPLANATION = ("Q1 the transition relation of the start/next/finish shims, obtai
                "what the driver puts into those two when it forwards a SearchResultDone, is exactly the decoded control list - once; "
                "Q5 cancel safety: nothing is moved out of the stream across an await of the stepping function, and no shim leaves a field changed only for the time its callee runs (the chain position) when its future is dropped at that await; Q3 constants (is_ref <=> 19, is_intermediate <=> 25, 80, 88); Q4 Ldap::search = streaming_search_with(EntriesOnly) + "
                "push every entry in order + finish; EntriesOnly drops intermediates, collects referral URIs, passes everything else; its finish() returns, on every path, the upstream result with the collected URIs appended to the referral list "
-               "that result came back with (untouched on a path that found nothing collected); Q8 every Adapter::next of the crate returns an upstream error as it is: a path that ends while the upstream result is Err, or not known to be Ok, returns that result, a path that goes on knows it to be Ok.")
+               "that result came back with (untouched on a path that found nothing collected); Q10 the driver hands an item to the search's channel with a call that can fail only when the receiving stream is gone (not `try_send` on a bounded queue, which also fails when the queue is full and so loses items of a live stream); Q8 every Adapter::next of the crate returns an upstream error as it is: a path that ends while the upstream result is Err, or not known to be Ok, returns that result, a path that goes on knows it to be Ok.")
 TRUSTED = ['the adapter chain is entered through these shims only (fields are private: witness crate)', 'tokio mpsc FIFO']
 UNDECIDED = ['what the server sent (C01 carries it to the channel)', 'user-defined adapters']
 SHARED = [('C01', ('R3.controls', 'R3.protocol-op', 'R4.'), 'Q6.driver-forwards-the-message'),      # what the stream yields is what the driver put into its channel: the decoded protocolOp and control list, classified by tag number
@@ -469,6 +469,7 @@ def run(ctx):
     ctx.add('Q4.entries-only.finish-merges-refs', 'coverage', loc(EF.root), n_merge >= 1, 'no path of EntriesOnly::finish appends the collected referral URIs to the upstream result')
 
     adapters_pass_upstream_errors(ctx, f)
+    delivery_fails_only_when_the_stream_is_gone(ctx, f)
 
     # an adapter instance outlives one search (the chain is cloneable and a running stream hands out clones of its adapters for a
     # follow-up search): the referrals reported for a search are those received for it only if the accumulator is empty when the
@@ -505,6 +506,49 @@ def current_value(v, heap):
     if v[0] == 'ctor':
         return ('ctor', v[1], tuple(current_value(heap.get(('field', v, str(i)), a), heap) for i, a in enumerate(v[2])))
     return v
+
+def delivery_fails_only_when_the_stream_is_gone(ctx, f):
+    """Q10 "a stream yields exactly the items the server sent for that search": between the decoded message and the stream lies the
+    hand-over of the item to the search's channel in the driver's response arm.  The arm treats a failed hand-over as "nobody
+    listens any more" (it drops the item and un-routes the search), which is right exactly when the delivery call can fail ONLY
+    because the receiving stream is gone.  Decided from the resolved callee of every delivery call on the enumerated paths of the
+    arm (a delivery call, by role: a call on the sender found in the search routing map that is handed the (item, controls)
+    message - driver.hands_over) against the failure table of the channel library (driver.DELIVERY): `UnboundedSender::send` fails
+    only when the receiver was closed or dropped; an awaited `Sender::send` on a bounded channel likewise (but it waits for room,
+    which stalls the driver: C04 L2.arm-awaits-only-the-transport); `try_send` / `send_timeout` on a bounded channel also fail when
+    the queue is full / stays full - an item sent by the server is then discarded although its stream is alive.  A delivery
+    call that is not in the table is not decided and fails closed."""
+    import driver
+    C = anchors.Conn(f)
+    outs, _I = driver.arm_paths(C, 'response')
+    sites = {}
+    for o in outs:
+        for i, args, node in driver.sends(o, anchors.T_ITEM_SENDER):
+            ent = sites.setdefault(id(node), {'node': node, 'callee': o.st.ev[i][1], 'unrouted_on_failure': False, 'items': set()})
+            term = ('call', o.st.ev[i][1], tuple(args), node.get('id'))
+            failed = sem.failed(o, lambda v, term=term: v == term or v == ('await', term))
+            if failed and driver.net_registration(C, o, 'search', driver.DECODED_ID) != 'kept':
+                ent['unrouted_on_failure'] = True
+            pl = args[1]
+            if pl[0] == 'tuple' and pl[1] and pl[1][0][0] == 'ctor':
+                ent['items'].add(pl[1][0][1].split('::')[-1])
+    ctx.floor('Q10', 'item deliveries on the paths of the driver\'s response arm', len(sites), 1)
+    for ent in sites.values():
+        cal = ent['callee']
+        means, waits = driver.delivery_failure_means(cal)
+        short = '::'.join(cal.replace('::<T>', '').rsplit('::', 2)[-2:])
+        if means is None:
+            why = ('the driver hands a search item to its stream with `%s`, a call whose failure conditions are not in the table of channel operations (rules/driver.py DELIVERY): '
+                   'not decided that it fails only when the stream is gone' % cal)
+        else:
+            why = ('the driver hands a search item (%s) to its stream with `%s`, whose failure does not only mean that the receiving stream is gone but also that %s: '
+                   'the item is then discarded although the stream is alive%s - the stream does not yield exactly the items the server sent (it ends early, or misses entries)'
+                   % (' / '.join(sorted(ent['items'])) or 'entry, referral or the SearchResultDone', short,
+                      {'full-or-closed': 'the bounded queue is full (the consumer is that many items behind)', 'timeout-or-closed': 'no room became free in the queue in time'}.get(means, means),
+                      ', and the arm un-routes the search on that failure as if nobody listened any more' if ent['unrouted_on_failure'] else ''))
+        ctx.add('Q10.delivery-fails-only-when-the-stream-is-gone', short, loc(ent['node']), means == 'closed', why)
+        if means == 'closed' and waits:
+            ctx.note('Q10: `%s` fails only when the stream is gone, but it waits for room in a bounded queue: the driver stalls behind a slow consumer (C04 L2.arm-awaits-only-the-transport)' % short)
 
 def adapters_pass_upstream_errors(ctx, f):
     """Q8, for every Adapter::next of the crate, on every path: when the upstream next() - the next adapter of the chain or the
